@@ -1119,6 +1119,26 @@ class SD:
                 run.ob(rule, f"{ai.qual}:already-assigned", rv[0] == "replace" and rv[1] == me and not rv[2], loc(ai),
                        "entries that already carry raw indexes are copied unchanged", nontrivial=False)
                 continue
+            # typestate: an entry either carries its option runs (resolved) or raw (index, count) pairs with empty runs.
+            # Placing the runs of an entry that is in the second state stores (0, 0) for both and the encoded entry decodes
+            # without its options: the runs may be read only where the path has established the first state.
+            idx_fields = ("option_index_1", "option_index_2", "num_options_1", "num_options_2")
+
+            def says_resolved(c, v):
+                if c[0] == "cmp" and c[1] in ("is", "==", "is not", "!=") and c[3] == const(None) and c[2][0] == "attr" and c[2][1] == me \
+                        and c[2][2] in idx_fields:
+                    return v == (c[1] in ("is", "=="))
+                return False
+            known = True
+            for p2 in self.paths(ai, ENTRY, eng=engine(prog, InlineOnly(names=(), props=True, max_depth=1))):
+                # (helpers of the state test analysed in place; the placing function may then be in place as well)
+                places = [e for e in p2.events if e.kind == "call" and (any(f.qual == ao.qual for f in e.targets) or getattr(e, "helper", None) is ao)]
+                if places and not any(says_resolved(c, v) for c, v, _, _ in p2.conds):
+                    known = False
+            run.ob(rule, f"{ai.qual}:places-only-resolved-entries", known, loc(ai),
+                   "the runs are placed only after the entry was found to be resolved (an index field is None)" if known else
+                   "the option runs are placed without establishing that the entry is resolved: an entry that already carries raw "
+                   "indexes (empty runs) is re-assigned (0, 0) and is encoded without its options")
             d = dict(rv[2]) if rv[0] == "replace" and rv[1] == me else {}
             ok = len(calls) == 2
             if ok:
